@@ -1,3 +1,4 @@
+import Dbg.Model.KmerExts
 import Dbg.Driver.Util
 import Dbg.Spec.C10
 /-! Requests on packed k-mers (C10, and the histories of C11). K-mers travel as raw storage in hex; a
@@ -126,6 +127,16 @@ def handle (args : List String) (impl : String) : R Ans :=
       let bs := txt.toList.map Char.toNat
       let show' := fun (l : List (St c)) => if l.isEmpty then "-" else ",".intercalate (l.map (showK c))
       pure { model := show' (kmersFromAscii c bs), verdict := ← vList c impl (KSpec.windows c.K (bs.map KSpec.asciiToBase)) }
+    | "getexts", [x, e, d] => do
+      -- `get_extensions(exts, dir)`
+      let s ← st x
+      let ex : Compress.Exts := ⟨← hex e⟩
+      let d ← if d == "L" then pure Walk.Dir.L else if d == "R" then pure Walk.Dir.R else throw "bad-dir"
+      let show' := fun (l : List (St c)) => if l.isEmpty then "-" else ",".intercalate (l.map (showK c))
+      let expect := (ex.get d).map fun b => match d with
+        | .R => KSpec.extendRight (toSeq c s) b
+        | .L => KSpec.extendLeft (toSeq c s) b
+      pure { model := show' (getExtensions c s ex d), verdict := ← vList c impl expect }
     | "hd1", [x] => do
       -- `KmerOneHammingIter`: all k-mers at Hamming distance 1, in iteration order
       let s ← st x
